@@ -8,7 +8,7 @@ def run(res, tier, seed, replay):
     res.corr_diffs, res.unknown = [], []
     fam = json.load(open(vlib.VERIF + "/tools/sigfam.json"))
     res.cov["rule"] = (f"real: will_return_boolean on every member of the {len(fam)}-type family (accepted iff the top-level return type is bool: includes fn() -> fn() -> bool, *const bool, Option<bool>, fn(fn(u8) -> bool) -> bool, unsafe/extern bool functions), refusal must be the boolean-gate panic with the target untouched, whether attempted on an ordinary thread or from a destructor running while the thread unwinds from an earlier panic; "
-                       "the assembly caller of C13 with the target forced to true/false: AL is the value, RSP and the six callee-saved registers are as before the call, for many register patterns; the forced-boolean history kind of C02 (calls return the value whatever the argument); "
+                       "the assembly caller of C13 with the target forced to true/false: AL is the value, RSP and the six callee-saved registers are as before the call, for many register patterns; histories that force the result of the same bool functions again and again (flip and flip back within one injector, and across lifetimes): every call returns the value forced last whatever the argument, the original is back after scope exit; "
                        "sim: stub bytes of x86-64 / AArch64 for both values executed with the extracted semantics; distinct = distinct (type feature, outcome) / (value, pattern class)")
     res.cov["trusted_base"] = vlib.TRUSTED_COMMON + ["L0 x86-64 and A64 fragments", "the compact type syntax parser and renderer in extract/driver.ml", "harness/real abi.rs"]
     res.assumptions = ["32-bit ARM: the forced boolean installs a branch to return_true/return_false and reduces to C16", "dyn Trait return types are outside the modelled grammar"]
@@ -28,7 +28,7 @@ def run(res, tier, seed, replay):
             case = dict(type=m["rust"], context=ctx or "ordinary")
             distinct.add((m["feature"], got))
             if model != want: res.corr_diffs.append(dict(case=case, model=M.get(f"b{i}"), expected_by_type=want))
-            if got == "M": res.violation("a refused forced-boolean installation modified the target", case, got)
+            if got == "M": res.violation("a refused forced-boolean installation modified the target or had already begun when it was refused (system calls made on its behalf)", case, got)
             elif got != want:
                 res.violation(("will_return_boolean ACCEPTED a function whose return type is not bool" if got == "A" else f"will_return_boolean on a bool function gave {got}"), case, f"observed {got}, expected {want}")
         for key in ("BOOLGATE_UNCHECKED" + ctx, "BOOLGATE_UNCHECKED_SAFEFORM" + ctx):
@@ -38,6 +38,20 @@ def run(res, tier, seed, replay):
                 if got != "B": res.violation("will_return_boolean on a target from the unchecked macros (empty signature) was not refused with the boolean-gate panic" + (" although the function does not return bool" if not m["returns_bool"] else ""), dict(type=m["rust"], form=key), got)
     row = O['misc'].get('BOOLGATE', '')
     res.cov["evaluations"] += 6 * len(fam); res.cov["distinct_nontrivial"] += len(distinct)
+    # forcing the result of the same function again (same injector: flip it, flip it back; and across lifetimes): every call returns the value forced LAST,
+    # whatever the argument, and the original is back afterwards
+    import histlib
+    rb = random.Random(seed + 100)
+    hb = []
+    for i in range(12 if tier == "quick" else 200):
+        lts = []
+        for _ in range(rb.randint(1, 3)):
+            ops = []
+            for _ in range(rb.randint(2, 6)):
+                t = rb.choice(["b0", "b1"]); ops += [f"I:{t}:bool:{rb.randint(0, 1)}", f"C:{t}"]
+            lts.append(ops)
+        hb.append((f"fb{i} b0,b1,fk0,fk1,fk2,fk3 " + "|".join(",".join(o) for o in lts), lts))
+    histlib.check_histories(res, "c02", 0, seed + 100, "full", extra_lines=hb)
     # the stub on the real CPU
     exe = reallib.build(res)
     n = 64 if tier == "quick" else 4096
